@@ -126,6 +126,7 @@ func (g *healGoal) premise() (bool, string) {
 	// (the removed replica committed them with the witness's acknowledgement), C17 promises
 	// nothing. If the entries exist on no replica at all (they were never persisted by their
 	// leader) the premise holds and the shard has to make progress.
+	latest := s.mon.latestMembership()
 	for _, wid := range s.order {
 		w := s.replicas[wid]
 		if !w.alive || w.removed || !w.cfg.IsWitness {
@@ -140,13 +141,16 @@ func (g *healGoal) premise() (bool, string) {
 		voters := 0
 		for _, id := range s.order {
 			r := s.replicas[id]
-			if !r.alive || r.removed || r.cfg.IsWitness || r.cfg.IsNonVoting {
+			if !r.alive || r.removed || r.cfg.IsWitness {
+				continue
+			}
+			// a regular voting member under the latest membership any replica has applied (a
+			// replica that joined as non-voting may have been promoted; one that was just added
+			// may not have received anything yet: its log is empty and it cannot lead either)
+			if _, isVoter := latest.Addresses[id]; !isVoter {
 				continue
 			}
 			l := s.mon.log(r)
-			if l.last == 0 && l.snapIndex == 0 {
-				continue // joined, never part of the shard
-			}
 			voters++
 			lt := l.snapTerm
 			if e, ok := l.ents[l.last]; ok {
@@ -165,10 +169,15 @@ func (g *healGoal) premise() (bool, string) {
 		}
 		for _, id := range s.order {
 			r := s.replicas[id]
+			if os.Getenv("VERIF_DEBUG") != "" {
+				rl := s.mon.log(r)
+				fmt.Fprintf(os.Stderr, "premise: witness %d last %d term %d; replica %d removed=%v alive=%v log last %d snap %d has=%v\n", wid, wl.last, wt, id, r.removed, r.alive, rl.last, rl.snapIndex, rl.ents[wl.last])
+			}
 			if !r.removed {
 				continue
 			}
-			if e, ok := s.mon.log(r).ents[wl.last]; ok && e.Term == wt {
+			rl := s.mon.log(r)
+			if e, ok := rl.ents[wl.last]; (ok && e.Term == wt) || rl.snapIndex >= wl.last {
 				return false, fmt.Sprintf("witness %d holds entry %d (term %d) that no running voter has; its payload exists only on removed replica %d", wid, wl.last, wt, id)
 			}
 		}
